@@ -1,7 +1,7 @@
 # Builds the simulator (two flavours). The replicas of the library are built
 # from /repo's working tree by bin/build_replicas.py at check time.
 CXX = clang++
-CXXFLAGS = -std=c++17 -O2 -g1 -Wall -Wextra -Wno-unused-parameter -Wno-missing-field-initializers -fno-omit-frame-pointer
+CXXFLAGS = -std=c++17 -O2 -g1 -gdwarf-4 -Wall -Wextra -Wno-unused-parameter -Wno-missing-field-initializers -fno-omit-frame-pointer
 LDFLAGS = -rdynamic -ldl -lpthread
 SRC = $(wildcard sim/*.cpp)
 HDR = $(wildcard sim/*.hpp) adapter/jv_abi.h
